@@ -255,6 +255,10 @@ pub struct Env {
     pub cb_fault: Option<(FaultKind, u32)>,
     pub cb_calls: u32,
     pub cb_fired: bool,
+    /// verdict of an oracle embedded in the step itself (medium round trips): (class, detail)
+    pub violation: Option<(String, String)>,
+    /// like `violation`, for classes that do not invalidate the rest of the run
+    pub soft: Option<(String, String)>,
 }
 
 impl Env {
@@ -268,6 +272,8 @@ impl Env {
             cb_fault: None,
             cb_calls: 0,
             cb_fired: false,
+            violation: None,
+            soft: None,
         }
     }
     pub fn reset(&mut self) {
@@ -280,6 +286,8 @@ impl Env {
         self.cb_fault = None;
         self.cb_calls = 0;
         self.cb_fired = false;
+        self.violation = None;
+        self.soft = None;
     }
     pub fn res(&mut self, p: Pool, k: usize) {
         if self.nres < 4 {
@@ -560,6 +568,7 @@ pub fn exec(w: &mut World, op: &Op, env: &mut Env) {
         "f" => crate::exec_float::exec_f::<mode::Zero, 2>(w, op, rest, env),
         "d" => crate::exec_float::exec_f::<mode::HalfAway, 10>(w, op, rest, env),
         "fd" => crate::exec_float::exec_fd(w, op, rest, env),
+        "med" => crate::exec_medium::exec_med(w, op, rest, env),
         "r" => crate::exec_ratio::exec_r(w, op, rest, env),
         "x" => crate::exec_ratio::exec_x(w, op, rest, env),
         "nop" => {}
